@@ -23,6 +23,10 @@ inductive Ver | v0 | v1 | v0a
   returns with the request queued and is answered later in any order (socket/gRPC clients; a full
   request queue makes the call block first). `v0` and `v0a` are the two extreme schedules. -/
   | v0g
+  /-- `v1a` = mempool v1 over the asynchronous FIFO connection: `CheckTxSync` queues the request and
+  waits for its answer (holding no lock); `FlushSync` returns when everything queued BEFORE it has
+  been answered -/
+  | v1a
   deriving DecidableEq, Repr
 
 /-- checker program counter -/
@@ -53,7 +57,8 @@ structure MS where
   rechecks : List Nat := []         -- v1: recheck requests on the connection (ids)
   handle : Nat := 0                 -- v1: answered rechecks waiting for the exclusive lock
   nextRecheck : Nat := 0
-  queue : List (Bool × Nat) := []   -- v0a: unanswered requests on the mempool connection, FIFO; (isRecheck, id)
+  queue : List (Bool × Nat) := []   -- v0a/v1a: unanswered requests on the mempool connection, FIFO; (isRecheck, id)
+  flushAfter : Nat := 0             -- v1a: requests still ahead of the committer's pending flush
   deriving Repr
 
 inductive Ev
@@ -94,6 +99,7 @@ def step (v : Ver) (s : MS) : Ev → Option MS
       | .v1 => some (setK s i .atGate)                                    -- RLock released again
       | .v0a => some { setK s i .atGate with queue := s.queue ++ [(false, i)] }  -- queued, RLock released
       | .v0g => some { setK s i .atGate with readers := s.readers + 1 }
+      | .v1a => some { setK s i .atGate with queue := s.queue ++ [(false, i)] }
     else none
   | .relCheck i =>
     if kpc s i = some .atGate then
@@ -105,10 +111,14 @@ def step (v : Ver) (s : MS) : Ev → Option MS
           some { setK s i .done with pool := s.pool + grow i, queue := s.queue.tail }
         else none
       | .v0g => some { setK s i .done with readers := s.readers - 1, pool := s.pool + grow i }
+      | .v1a =>
+        if s.queue.head? = some (false, i) then
+          some { setK s i .wantAdd with queue := s.queue.tail, flushAfter := s.flushAfter - 1 }
+        else none
     else if v = .v0g ∧ kpc s i = some .queued then some { setK s i .done with pool := s.pool + grow i }
     else none
   | .addCheck i =>
-    if v = .v1 ∧ kpc s i = some .wantAdd ∧ lockFree s then some { setK s i .done with pool := s.pool + grow i }
+    if (v = .v1 ∨ v = .v1a) ∧ kpc s i = some .wantAdd ∧ lockFree s then some { setK s i .done with pool := s.pool + grow i }
     else none
   | .spawnCommit => if s.cpc = .idle then some { s with cpc := .wantLock } else none
   | .lockCommit =>
@@ -118,6 +128,7 @@ def step (v : Ver) (s : MS) : Ev → Option MS
       | .v1 => some { s with cpc := .flushGate }            -- Lock, then FlushAppConn unlocks
       | .v0a => some { s with cpc := .flushGate, writer := true }
       | .v0g => some { s with cpc := .flushGate, writer := true }
+      | .v1a => some { s with cpc := .flushGate, flushAfter := s.queue.length }  -- Lock; FlushAppConn: Unlock; FlushSync …
     else none
   | .relFlush =>
     if s.cpc = .flushGate then
@@ -127,9 +138,10 @@ def step (v : Ver) (s : MS) : Ev → Option MS
       | .v0a => if s.queue = [] then some { s with cpc := .commitGate } else none  -- FlushSync returns
       | .v0g =>
         if (s.chk.all fun p => p.2 != .queued) ∧ s.rechecks = [] then some { s with cpc := .commitGate } else none
+      | .v1a => if s.flushAfter = 0 then some { s with cpc := .wantRelock } else none
     else none
   | .relockCommit =>
-    if v = .v1 ∧ s.cpc = .wantRelock ∧ lockFree s then some { s with cpc := .commitGate, writer := true }
+    if (v = .v1 ∨ v = .v1a) ∧ s.cpc = .wantRelock ∧ lockFree s then some { s with cpc := .commitGate, writer := true }
     else none
   | .relCommit =>
     if s.cpc = .commitGate then
@@ -149,6 +161,11 @@ def step (v : Ver) (s : MS) : Ev → Option MS
       | .v0g =>
         if s.pool = 0 then some { s with cpc := .idle, writer := false }
         else some { s with cpc := .recheckGate s.nextRecheck (s.pool - 1), nextRecheck := s.nextRecheck + s.pool }
+      | .v1a =>
+        -- Update spawns the recheck goroutine (its CheckTxSync calls queue up) and returns; unlock
+        some { s with cpc := .idle, writer := false,
+                      queue := s.queue ++ (List.range s.pool).map (fun k => (true, k + s.nextRecheck)),
+                      nextRecheck := s.nextRecheck + s.pool }
     else none
   | .relRecheck j =>
     match v with
@@ -165,6 +182,10 @@ def step (v : Ver) (s : MS) : Ev → Option MS
       else none
     | .v0a =>
       if s.queue.head? = some (true, j) then some { s with queue := s.queue.tail } else none
+    | .v1a =>
+      if s.queue.head? = some (true, j) then
+        some { s with queue := s.queue.tail, handle := s.handle + 1, flushAfter := s.flushAfter - 1 }
+      else none
     | .v0g =>
       match s.cpc with
       | .recheckGate cur left =>
@@ -174,7 +195,7 @@ def step (v : Ver) (s : MS) : Ev → Option MS
         else if j ∈ s.rechecks then some { s with rechecks := s.rechecks.filter (· ≠ j) } else none
       | _ => if j ∈ s.rechecks then some { s with rechecks := s.rechecks.filter (· ≠ j) } else none
   | .handleRecheck =>
-    if v = .v1 ∧ 0 < s.handle ∧ lockFree s then some { s with handle := s.handle - 1 } else none
+    if (v = .v1 ∨ v = .v1a) ∧ 0 < s.handle ∧ lockFree s then some { s with handle := s.handle - 1 } else none
 
   | .retCheck i =>
     if v = .v0g ∧ kpc s i = some .atGate then some { setK s i .queued with readers := s.readers - 1 } else none
@@ -234,7 +255,7 @@ def writerWaiting (s : MS) : Bool :=
   s.cpc == .wantLock || s.cpc == .wantRelock || s.handle > 0 || s.chk.any fun p => p.2 == .wantAdd
 
 def internalEvs (v : Ver) (s : MS) : List Ev :=
-  (if v = .v0a then [.relFlush] else []) ++ [.lockCommit, .relockCommit, .handleRecheck] ++
+  (if v = .v0a ∨ v = .v1a then [.relFlush] else []) ++ [.lockCommit, .relockCommit, .handleRecheck] ++
     (s.chk.map fun p => Ev.addCheck p.1) ++
     (if writerWaiting s then [] else s.chk.map fun p => Ev.prelude p.1)
 
